@@ -275,7 +275,7 @@ AREAS["C19"] = {'area': 'c19',
          'Modbus/ClientProofs.v',
          'Modbus/ConvProofs.v',
          'Modbus/Legacy19.v',
-         'Properties/C19.v', "MiniGo", "Anchors/Generated.v", "Anchors/TieModbus.v", "Anchors/TieRtuCrc.v", "Anchors/TieModbusData.v"],
+         'Properties/C19.v', "MiniGo", "Anchors/Generated.v", "Anchors/TieModbus.v", "Anchors/TieRtuCrc.v", "Anchors/TieModbusData.v", "Anchors/TieCheckCrc.v"],
  'rule': 'seeded generator, four streams. sessions: a modbus.Client and a modbus.Server.Listen joined by an in-memory duplex that delivers whole '
          'packets (RTU: pipe-like io.ReadWriteCloser; TCP: net.Pipe behind net.Conn wrappers), register file of one or two blocks (1..130 registers, '
          'some with validators) or a few scattered registers, unit ids incl. 0, 247, 255 and calls to a foreign unit, 1-5 calls each (ReadCoils, '
@@ -287,14 +287,14 @@ AREAS["C19"] = {'area': 'c19',
          'Transport.Encode / Decode on arbitrary PDUs and on well-formed, damaged, truncated and random packets in both roles. A session is '
          'non-trivial when a call returned more than one value or a successful write was followed by another call; other cases when their input is '
          'non-empty; distinct by SHA-1 of the inputs',
- 'trusted': ['translator harness/cmd/anchors (go/parser + go/types, no imports followed): prints constants, tables, modbus.RtuCrc (as a MiniGo syntax tree) and all fifteen functions of modbus/data.go (as syntax trees of MiniGo/Slice.v: made / indexed / stored slices, index loops, the encoding/binary big-endian accessors and math.Float32bits / Float32frombits named as such) from the sources into coq/theories/Anchors/Generated.v before every build; the *_from_source theorems are re-checked against that text; MiniGo/Syntax.v and MiniGo/Slice.v are the stated semantics of the two fragments (wrap-around integers, panics as None, block scoping by dropping an iteration\'s declarations; float32 values as bit patterns; what encoding/binary and math do is stated there, not derived from their sources)', 'model of client.go, server.go (Listen iteration), rtu.go, tcp.go, crc.go, data.go and the response decoders: '
+ 'trusted': ['translator harness/cmd/anchors (go/parser + go/types, no imports followed): prints constants, tables, modbus.RtuCrc (as a MiniGo syntax tree), modbus.CheckRtuCrc (as a MiniGo/Slice.v tree that calls the printed RtuCrc) and all fifteen functions of modbus/data.go (as syntax trees of MiniGo/Slice.v: made / indexed / stored slices, index loops, the encoding/binary big-endian accessors and math.Float32bits / Float32frombits named as such) from the sources into coq/theories/Anchors/Generated.v before every build; the *_from_source theorems are re-checked against that text; MiniGo/Syntax.v and MiniGo/Slice.v are the stated semantics of the two fragments (wrap-around integers, panics as None, block scoping by dropping an iteration\'s declarations; float32 values as bit patterns; what encoding/binary and math do is stated there, not derived from their sources)', 'model of client.go, server.go (Listen iteration), rtu.go, tcp.go, crc.go, data.go and the response decoders: '
              "coq/theories/Modbus/{Client,Frames,RtuCrc,Conv}.v (hand-written, tied by this run's correspondence)",
              "specification used on the implementation's outputs: coq/theories/Modbus/C19Check.v (own bit-serial CRC-16/MODBUS, own frame layouts, "
              'register-file view and protocol specification of PduSpec.v)'],
  'level_text': 'proof: C19_read_agrees (every read, every register file, count and address, RTU and TCP with any transaction id incl. wrap: exactly '
                'the addressed values, exactly count of them, error when the server must refuse), C19_write_then_read, C19_write_reports, '
                'C19_frames_rejected (round trips; short, bad-CRC and wrong-transaction-id frames rejected; rejected requests change nothing) and '
-               'C19_conv_inverse are Coq theorems about the executable model of client, server loop, framing, CRC and conversions (C19_rtu_crc_from_source and C19_conv_from_source: RtuCrc and the fifteen functions of modbus/data.go, as printed from the Go sources on this run, compute the model\'s functions for every input), resting on '
+               'C19_conv_inverse are Coq theorems about the executable model of client, server loop, framing, CRC and conversions (C19_rtu_crc_from_source, C19_check_crc_from_source and C19_conv_from_source: RtuCrc, CheckRtuCrc and the fifteen functions of modbus/data.go, as printed from the Go sources on this run, compute the model\'s functions for every input), resting on '
                'C18_conforms for the server; the model and an independent executable specification are run against the real Client/Server/transports '
                'on about 1500 client-server exchanges and 3000 codec / conversion cases per run and must agree on every frame and result',
  'level_note': 'trusted: Coq kernel, extraction, OCaml driver, the Go harness and its in-memory duplex (whole-packet delivery, a lost or unanswered '
